@@ -327,6 +327,10 @@ class PDFStream(PDFObject):
 
         resolved_filters = [resolve1(f) for f in filters]
         resolved_params = [resolve1(param) for param in params]
+        # decode parameters that are not a dictionary (null, or damaged) mean nothing
+        resolved_params = [
+            param if isinstance(param, dict) else {} for param in resolved_params
+        ]
         return list(zip(resolved_filters, resolved_params))
 
     def decode(self) -> None:
